@@ -28,7 +28,7 @@ ANCHORS = ['loki/transformations/single_column/scc.py', 'loki/transformations/si
            'loki/transformations/single_column/hoist.py', 'loki/transformations/single_column/vertical.py']
 REQUIRED_REACH = ['process_kernel', 'process_driver', 'extract_vector_sections', 'get_locals_to_demote',
                   'wrap_vector_section', 'annotate_driver_loop', 'driver_variable_declaration']
-REQUIRED_COUNTERS = {'program_runs': 60, 'pipelines_applied': 30}
+REQUIRED_COUNTERS = {'program_runs': 40, 'pipelines_applied': 20}
 ASSUMPTIONS = ['gfortran 12 -O0 -fcheck=all + ASan/UBSan is the reference semantics; !$acc / !$omp / !$loki are comments',
                'generated programs are well-defined by construction (original must build and run clean, else the '
                'case is inconclusive)',
@@ -36,7 +36,7 @@ ASSUMPTIONS = ['gfortran 12 -O0 -fcheck=all + ASan/UBSan is the reference semant
                'input contract), so re-ordering across the horizontal is legal',
                'kind module parkind1 belongs to the input project and is disabled in the scheduler config; '
                'int_kind of the index-stack variants is set to a kind the kernels import']
-BUDGET_S = {'quick': 900, 'thorough': 6000}
+BUDGET_S = {'quick': 3000, 'thorough': 9000}
 CASE_TIMEOUT_S = 1500
 
 H = {'horizontal': '@horizontal', 'block_dim': '@block_dim'}
@@ -46,6 +46,7 @@ H = {'horizontal': '@horizontal', 'block_dim': '@block_dim'}
 #   posargs   hoisting with as_kwarguments=False on calls that carry keyword arguments (always the case after the
 #             sequential revector stage, which adds ``jl=jl``); everywhere else as_kwarguments=True is used for
 #             the sequential hoist pipeline and keyword calls are not combined with positional hoisting
+#   dirnone   directive=None passed explicitly (documented value) to the first pipeline of the slot
 #   drvsec    horizontal loops in the driver's block loop together with an IFS-style block loop whose body
 #             computes the block index and the upper bound (untrimmed driver vector sections)
 ROT = [
@@ -60,7 +61,7 @@ ROT = [
     ('SCCVVectorPipeline', 'SCCSVectorPipeline', ('drvsec',)),
     ('SCCVHoistPipeline', 'SCCSStackPipeline', ()),
     ('SCCSVectorPipeline', 'SCCVStackFtrPtrPipeline', ()),
-    ('SCCVVectorPipeline', 'SCCVHoistPipeline', ()),
+    ('SCCVVectorPipeline', 'SCCVHoistPipeline', ('dirnone',)),
     ('SCCSStackPipeline', 'SCCVStackDirectIdxPipeline', ()),
     ('SCCSHoistPipeline', 'SCCVVectorPipeline', ()),
     ('SCCVStackPipeline', 'SCCSRawStackPipeline', ()),
@@ -84,6 +85,7 @@ def case_plan(rng, idx):
         'ifs_block_loop': rng.random() < 0.25,
         'keyword_calls': rng.random() < 0.25,
         'two_modules': rng.random() < 0.3,
+        'alias_names': rng.random() < 0.4,
         'driver_sections': rng.random() < 0.6,
         'horizontal_outer': rng.random() < 0.7,
         'max_stmts': rng.choice([2, 3, 4]),
@@ -95,7 +97,11 @@ def case_plan(rng, idx):
     specs = []
     for name in (n1, n2):
         kw = dict(H)
-        kw['directive'] = rng.choice([None, 'openacc', 'openacc', 'omp-gpu'])
+        d = rng.choice(['omit', 'openacc', 'openacc', 'omp-gpu'])
+        if d != 'omit':
+            kw['directive'] = d
+        if 'dirnone' in opts and name == n1:
+            kw['directive'] = None
         if rng.random() < 0.3 and 'drvsec' not in opts:
             kw['trim_vector_sections'] = True
         if rng.random() < 0.2:
@@ -113,7 +119,8 @@ def case_plan(rng, idx):
             else:
                 kw['as_kwarguments'] = rng.random() < 0.4
         if 'RawStack' in name and not name.startswith('SCCS'):
-            flags['keyword_calls'] = False     # see C38: positional stack arguments on calls with keywords
+            flags['keyword_calls'] = False     # positional stack arguments on calls with keywords: slot 14
+            flags['driver_all_kinds'] = True   # raw stack does not import kinds into the driver: see C38
         specs.append({'name': name, 'family': family(name), 'steps': [(name, kw)],
                       'shim_contiguous': 'FtrPtr' in name or 'DirectIdx' in name})
     return flags, specs
@@ -136,17 +143,21 @@ def run_case(idx, rng, tier, ctx):
             res['inconclusive'] = ('timeout: ' if ref.timeout else 'generator defect: ') + ref.bad[:300]
             return res
         res['counters']['program_runs'] += len(ref.runs)
-        ok = 0
+        ok, pending = 0, []
         for s in specs:
             out = scclab.run_spec(case, ref, wd, s, res['counters'])
             for v in out['violations']:
                 v['key'] = diagnose(PID, s, case, out, v)
                 res['violations'].append(v)
-            if out['inconclusive'] and not res['inconclusive']:
-                res['inconclusive'] = out['inconclusive']
+            if out['inconclusive']:
+                pending.append(out['inconclusive'])
             if out['nontrivial']:
                 ok += 1
         res['nontrivial'] = ok > 0
+        if pending and not res['violations'] and ok == 0:
+            # (the harness drops the violations of an inconclusive case: only a case without any verdict is one)
+            res['inconclusive'] = pending[0]
+        res['counters']['specs_without_verdict'] = len(pending)
         res['sample'] = {'pipelines': [s['name'] for s in specs], 'kernels': case.kernels,
                          'lines': sum(len(t.splitlines()) for t in case.files.values()),
                          'features': sorted(case.features)[:12]}
